@@ -52,11 +52,15 @@ type TxPlan struct {
 	Arg  string   `json:"arg,omitempty"`
 	Args []string `json:"args,omitempty"`
 	N    int      `json:"n,omitempty"`
+	// PreReg: a pre-commit action is registered on the context BEFORE Db.Update / Db.Batch is called ("ok" | "fail"):
+	// it guards every execution of the function, re-executions by Batch included
+	PreReg string `json:"preReg,omitempty"`
 	// Early: the call is issued without waiting for the reload lock to be free (it then queues inside the library,
 	// behind a restore that is pending or in progress)
 	Early bool `json:"early,omitempty"`
 	// Ctx: the context handed to Db.Update / Db.Batch. "" a fresh ordinary context, "nil" no context at all (the
 	// library makes one), "cancel" an ordinary context whose context.Context is cancelled before the function returns,
+	// "reuse" the very context object of the task's previous call (only between transactions that register no actions),
 	// "sys" a system context (every operation of the transaction then runs as system)
 	Ctx string `json:"ctx,omitempty"`
 }
@@ -83,7 +87,8 @@ type Plan struct {
 	Nonce     bool         `json:"nonce,omitempty"` // every write transaction stores a unique commit marker
 	// Schema: order-only variations of the store wiring (the behaviour every property prescribes is the same):
 	// bit 0 the extended child store registers its strategy before the plain one, bit 1 the system-entity constraint
-	// of people is added before its indexes, bit 2 the base path of the stores is a slice with spare capacity
+	// of people is added before its indexes, bit 2 the base path of the stores is a slice with spare capacity, bits 3-4 how the extended child store
+	// indexes its own field (Model.PxMode)
 	Schema int    `json:"schema,omitempty"`
 	Note   string `json:"note,omitempty"`
 	// filled in when a violation is written out
@@ -145,7 +150,7 @@ func SavePlan(path string, p *Plan) error {
 // ---------- universes ----------
 
 type Universe struct {
-	Depts, DeptNames, People, Names, Nicks, Roles, Badges, Notes, Tickets, Groups, BadgeNos, Memos, TagKeys, MemoIds, Reviews, Folders []string
+	Depts, DeptNames, People, Names, Nicks, Roles, Badges, Notes, Tickets, Groups, BadgeNos, Memos, TagKeys, MemoIds, Reviews, Folders, Desks []string
 }
 
 // Ids and values are disjoint alphabets so that "the id occurs nowhere" is decidable by byte search, with two
@@ -165,6 +170,7 @@ var U = Universe{
 	Tickets:   []string{"t1", "t2", "zt"},
 	Reviews:   []string{"v1", "v2", "v3"},
 	Folders:   []string{"f1", "f2", "f3", "f4", "f5", "f6", "f7"},
+	Desks:     []string{"w1", "w2", "w3"},
 	Groups:    []string{"g1", "g2", "g3", "g1a", `g"4`},
 	BadgeNos:  []string{"bn1", "bn2", "bn3"},
 	Memos:     []string{"m1", "m2", "m3", "m4"},
@@ -180,7 +186,7 @@ func sharedId(id string) bool { return id == "p1" || id == "p2" || id == "p3" }
 
 func (u Universe) ByStore() map[string][]string {
 	return map[string][]string{StDepts: u.Depts, StPeople: u.People, StStaff: u.People, StPX: u.People, StBadges: u.Badges,
-		StNotes: u.Notes, StTickets: u.Tickets, StGroups: u.Groups, StMemos: u.MemoIds, StReviews: u.Reviews, StFolders: u.Folders}
+		StNotes: u.Notes, StTickets: u.Tickets, StGroups: u.Groups, StMemos: u.MemoIds, StReviews: u.Reviews, StFolders: u.Folders, StDesks: u.Desks}
 }
 
 // ---------- generator ----------
@@ -366,7 +372,7 @@ func (g *gen) genOp() Op {
 	sysEntity := g.r.IntN(6) == 0
 	pickStore := func() string {
 		// people family weighted up: it carries most of the wiring
-		return pick(g.r, []string{StDepts, StPeople, StPeople, StPeople, StStaff, StStaff, StPX, StBadges, StNotes, StTickets, StGroups, StMemos, StReviews, StFolders, StFolders})
+		return pick(g.r, []string{StDepts, StPeople, StPeople, StPeople, StStaff, StStaff, StPX, StBadges, StNotes, StTickets, StGroups, StMemos, StReviews, StFolders, StFolders, StDesks})
 	}
 	existingIn := func(store string) []string {
 		switch store {
@@ -393,6 +399,8 @@ func (g *gen) genOp() Op {
 			return keysOf(sh.Reviews)
 		case StFolders:
 			return keysOf(sh.Folders)
+		case StDesks:
+			return keysOf(sh.Desks)
 		case StGroups:
 			return keysOf(sh.Groups)
 		case StMemos:
@@ -478,6 +486,7 @@ func (g *gen) genOp() Op {
 		case StPeople, StStaff, StPX:
 			g.personFields(&op, op.Id)
 			op.IsSys = sysEntity
+			op.Mig = g.r.IntN(10) == 0
 			op.Sys = sysEntity && g.r.IntN(4) != 0 || g.r.IntN(10) == 0
 			if op.S == StStaff {
 				op.Level = int32(g.r.IntN(3))
@@ -527,6 +536,10 @@ func (g *gen) genOp() Op {
 			}
 		case StFolders:
 			op.Ref = refFolder()
+		case StDesks:
+			if g.r.IntN(6) != 0 {
+				op.Ref = refPerson()
+			}
 		}
 	case "update":
 		op.K, op.S = "update", pickStore()
@@ -546,6 +559,7 @@ func (g *gen) genOp() Op {
 				op.Name = p.Name
 			}
 			op.IsSys = g.r.IntN(6) == 0 // attempts to flip the flag either way
+			op.Mig = g.r.IntN(8) == 0   // ... also with the entity value of an import (Migrate set)
 			if p, ok := sh.People[op.Id]; ok && p.Sys {
 				op.Sys = g.r.IntN(4) != 0
 			} else {
@@ -588,6 +602,9 @@ func (g *gen) genOp() Op {
 		case StFolders:
 			op.Ref = refFolder()
 			g.checker(&op, []string{"parent"})
+		case StDesks:
+			op.Ref = refPerson()
+			g.checker(&op, []string{"occupant"})
 		}
 	case "delete":
 		op.K, op.S = "delete", pickStore()
@@ -611,7 +628,7 @@ func (g *gen) genOp() Op {
 			}
 		}
 	case "deleteWhere":
-		op.K, op.S = "deleteWhere", pick(g.r, []string{StNotes, StTickets, StBadges, StPeople, StPeople, StStaff, StMemos, StReviews, StFolders})
+		op.K, op.S = "deleteWhere", pick(g.r, []string{StNotes, StTickets, StBadges, StPeople, StPeople, StStaff, StPX, StMemos, StReviews, StFolders, StDesks})
 		op.Q = pick(g.r, U.People[:len(U.People)-nHostilePeople]) // query text only from values the existing suite pins
 		if op.S == StMemos {
 			op.Q = pick(g.r, U.Groups[:len(U.Groups)-1])
@@ -619,7 +636,7 @@ func (g *gen) genOp() Op {
 		if op.S == StFolders {
 			op.Q = pick(g.r, U.Folders)
 		}
-		if op.S == StPeople || op.S == StStaff {
+		if op.S == StPeople || op.S == StStaff || op.S == StPX {
 			op.Q = pick(g.r, U.Names)
 			if ps := keysOf(sh.People); g.valid() && len(ps) > 0 {
 				op.Q = sh.People[pick(g.r, ps)].Name
@@ -634,10 +651,19 @@ func (g *gen) genOp() Op {
 		}
 	case "link":
 		op.K = pick(g.r, []string{"addLinks", "removeLinks", "setLinks", "setLinks", "addLink", "removeLink"})
-		op.S = pick(g.r, []string{StPeople, StGroups})
+		op.S = pick(g.r, []string{StPeople, StGroups, StPeople, StGroups, StStaff, SideLeads})
 		local, remote := g.people(), g.groups()
 		exL, exR := keysOf(sh.People), keysOf(sh.Groups)
-		if op.S == StGroups {
+		if op.S == StStaff || op.S == SideLeads {
+			exL = nil
+			for id, p := range sh.People {
+				if p.HasStaff {
+					exL = append(exL, id)
+				}
+			}
+			sort.Strings(exL)
+		}
+		if op.S == StGroups || op.S == SideLeads {
 			local, remote, exL, exR = remote, local, exR, exL
 		}
 		if g.valid() && len(exL) > 0 {
@@ -722,7 +748,7 @@ func (g *gen) f6() Fault {
 	}
 	switch site {
 	case "put":
-		keys = append(keys, "name", "nick", "alias", "dept", "mentor", "createdAt", "updatedAt", "isSystem", "owner", "about", "assignee", "topic", "reviewer", "parent", "level", "badgeNo", "memo", "tka", "tkb", "tk3")
+		keys = append(keys, "name", "nick", "alias", "dept", "mentor", "createdAt", "updatedAt", "isSystem", "owner", "about", "assignee", "topic", "reviewer", "parent", "occupant", "desks", "salary", "rate", "hired", "level", "badgeNo", "memo", "tka", "tkb", "tk3")
 		keys = append(keys, U.Names...)
 		keys = append(keys, U.DeptNames...)
 		keys = append(keys, U.BadgeNos...)
@@ -756,6 +782,7 @@ func (g *gen) f6() Fault {
 		keys = append(keys, U.Tickets...)
 		keys = append(keys, U.Reviews...)
 		keys = append(keys, U.Folders...)
+		keys = append(keys, U.Desks...)
 	case "cursorDelete":
 		typed(g.people())
 	}
@@ -897,6 +924,8 @@ func keysOfAny(m *Model, store string) []string {
 		return keysOf(m.Tickets)
 	case StReviews:
 		return keysOf(m.Reviews)
+	case StDesks:
+		return keysOf(m.Desks)
 	}
 	return nil
 }
@@ -1016,6 +1045,12 @@ func (g *gen) genTx() TxPlan {
 			return btx
 		}
 	}
+	if (g.cfg.Profile == "tx" || g.cfg.Profile == "txenum") && g.r.IntN(8) == 0 {
+		tx.PreReg = pick(g.r, []string{"ok", "ok", "fail"})
+		if g.cfg.Profile == "txenum" {
+			tx.PreReg = "ok" // (the enumeration needs a body that commits when nothing is injected)
+		}
+	}
 	switch g.r.IntN(16) {
 	case 0:
 		tx.Ctx = "nil"
@@ -1023,6 +1058,8 @@ func (g *gen) genTx() TxPlan {
 		tx.Ctx = "sys"
 	case 3:
 		tx.Ctx = "cancel"
+	case 4, 5, 6:
+		tx.Ctx = "reuse" // the task's previous context object, where that is unambiguous (see execWriteTx)
 	}
 	n := 1 + g.r.IntN(g.cfg.MaxOps)
 	// the shadow only guides argument choice; it assumes sequential execution of the plan as generated
@@ -1055,6 +1092,9 @@ func (g *gen) genTx() TxPlan {
 	}
 	if g.r.Float64() < g.cfg.FaultRate && len(g.cfg.Faults) > 0 {
 		tx.Faults = append(tx.Faults, g.genFault(len(tx.Ops)))
+		ok = false
+	}
+	if tx.PreReg == "fail" {
 		ok = false
 	}
 	if !ok {
@@ -1140,7 +1180,8 @@ func GenPlan(profile, prop string, seed uint64) *Plan {
 		panic("GenPlan: unknown profile " + profile)
 	}
 	g := &gen{r: r, cfg: cfg, shadow: NewModel()}
-	p := &Plan{Profile: profile, Prop: prop, Seed: seed, Listeners: cfg.Listeners, Schema: int(seed>>7) & 7}
+	g.shadow.PxMode = pxMode(int(seed>>7) & 31)
+	p := &Plan{Profile: profile, Prop: prop, Seed: seed, Listeners: cfg.Listeners, Schema: int(seed>>7) & 31}
 	if (prop == "C16" || profile == "tx") && r.IntN(14) == 0 {
 		return g.sysBatchPlan(p)
 	}
@@ -1190,7 +1231,8 @@ func genConcurrent(profile, prop string, seed uint64, r *rand.Rand) *Plan {
 	cfg.FaultRate = []float64{0, 0.08}[r.IntN(2)]
 	cfg.Faults = []string{"F1", "F7"}
 	g := &gen{r: r, cfg: cfg, shadow: NewModel()}
-	p := &Plan{Profile: profile, Prop: prop, Seed: seed, Nonce: true, Schema: int(seed>>7) & 7}
+	g.shadow.PxMode = pxMode(int(seed>>7) & 31)
+	p := &Plan{Profile: profile, Prop: prop, Seed: seed, Nonce: true, Schema: int(seed>>7) & 31}
 	nw := 1 + r.IntN(2)
 	if profile == "conc" {
 		nw = 1
@@ -1290,6 +1332,11 @@ func genConcurrent(profile, prop string, seed uint64, r *rand.Rand) *Plan {
 			n := 1 + r.IntN(3)
 			for i := 0; i < n; i++ {
 				t2.Txs = append(t2.Txs, TxPlan{Mode: "idle", N: 1 + r.IntN(10)})
+				if r.IntN(3) == 0 {
+					// ... or streaming a snapshot of its own (two streams may be in flight at once)
+					t2.Txs = append(t2.Txs, TxPlan{Mode: "snapshot", Arg: "stream", N: -1})
+					continue
+				}
 				t2.Txs = append(t2.Txs, TxPlan{Mode: "restore", Arg: pick(r, []string{"bytes", "reader", "reader"}), N: r.IntN(4)})
 			}
 			p.Tasks = append(p.Tasks, t2)
